@@ -14,7 +14,7 @@ import z3
 from .values import *      # noqa
 from .ctx import Ctx, PathEnd, guarded_check
 from .interp import Interp, Frame, PyRaise, ReturnSig, BreakSig, ContinueSig, assigned_targets, static_loop_ordinal
-from .cluster import Cluster, clause_key, clause_from_key, clause_text
+from .cluster import fast_and, Cluster, clause_key, clause_from_key, clause_text
 from . import solve, source
 
 
@@ -137,7 +137,7 @@ class MEngine:
             if dbg and _n % 20 == 0:
                 print(f"  [inv] {cut}: iteration {_n}, remaining {len(remaining)}, {time.time()-_t0:.1f}s", flush=True)
             conj = cl.conj_ph(keys, ("conj", cut, id(keys))) if first else \
-                z3.And([cl.clause_ph(c) for _, c in remaining])
+                fast_and([cl.clause_ph(c) for _, c in remaining])
             first = False
             goal = z3.Not(z3.substitute(conj, lmap))
             m = None
@@ -145,6 +145,9 @@ class MEngine:
             if s2 is None:
                 s.push()
                 try:
+                    if os.environ.get("VERIF_INV_RANDOM"):
+                        s.set("phase_selection", 5)
+                        s.set("random_seed", _n)
                     s.add(goal)
                     r = guarded_check(s, 2500)
                     if r == z3.unsat:
@@ -282,31 +285,7 @@ class MEngine:
                     it.havoc_target(("local", n.id), fr)
 
 
-_str_memo = {}
-
-
-_BOOL_OPS = (z3.Z3_OP_AND, z3.Z3_OP_OR, z3.Z3_OP_NOT, z3.Z3_OP_IMPLIES, z3.Z3_OP_XOR, z3.Z3_OP_ITE, z3.Z3_OP_EQ,
-             z3.Z3_OP_IFF, z3.Z3_OP_DISTINCT)
-
-
-def _abstract_strings(e, memo):
-    """propositional abstraction: every atom that mentions a string/sequence term becomes a fresh Bool (the same
-    atom -> the same Bool).  Every model of the original is a model of the abstraction, so `unsat` carries over;
-    a spurious `sat` only makes the caller drop clauses it could have kept."""
-    k = e.get_id()
-    if k in memo:
-        return memo[k]
-    if not _mentions_strings(e):
-        r = e
-    elif z3.is_app(e) and z3.is_bool(e) and e.decl().kind() in _BOOL_OPS and \
-            all(z3.is_bool(c) for c in e.children()):
-        r = e.decl()(*[_abstract_strings(c, memo) for c in e.children()])
-    elif z3.is_bool(e):
-        r = z3.Bool(f"abs!{k}")
-    else:
-        r = e
-    memo[k] = r
-    return r
+from .ctx import _abstract_strings, _mentions_strings    # noqa
 
 
 def _conjuncts(e):
@@ -318,28 +297,6 @@ def _conjuncts(e):
         else:
             out.append(x)
     return out
-
-
-def _mentions_strings(e):
-    k = e.get_id()
-    if k in _str_memo:
-        return _str_memo[k]
-    stack, seen, r = [e], set(), False
-    while stack:
-        x = stack.pop()
-        if x.get_id() in seen:
-            continue
-        seen.add(x.get_id())
-        if z3.is_quantifier(x):
-            stack.append(x.body())
-            continue
-        so = x.sort()
-        if so.kind() in (z3.Z3_SEQ_SORT, z3.Z3_RE_SORT):
-            r = True
-            break
-        stack.extend(x.children())
-    _str_memo[k] = r
-    return r
 
 
 def violated(ctx, forms):
@@ -499,7 +456,7 @@ def _worker(args):
                 "wall": time.time() - t0, "cuts": [], "leftover": [], "idx": entry_idx}
 
 
-UNIT_PATHS = 3
+UNIT_PATHS = 1
 
 
 def explore_entry(eng, entry, inv, tier, t0, prefix=(), limit=None):
@@ -519,6 +476,8 @@ def explore_entry(eng, entry, inv, tier, t0, prefix=(), limit=None):
         dec = work.pop()
         ctx = Ctx(dec, 3000)
         ctx.eager = True
+        ctx.abs_first = not os.environ.get("VERIF_NO_ABS_FIRST")
+        _tp = time.time()
         outcome = "ok"
         try:
             v = eng.run_path(ctx, entry, inv)
@@ -531,6 +490,9 @@ def explore_entry(eng, entry, inv, tier, t0, prefix=(), limit=None):
             outcome = "oos"
         npaths += 1
         work.extend(ctx.alts)
+        if os.environ.get("VERIF_DEBUG_TIMES"):
+            print(f"   path {dec} -> {outcome}: {time.time()-_tp:.1f}s feas(n,secs,unknown)={getattr(ctx, 'feas_stats', None)} "
+                  f"vcs={len(ctx.vcs)}", flush=True)
         if os.environ.get("VERIF_DEBUG"):
             print("   path", dec, "->", outcome, "| events:", [(e[0], e[1][0] if e[1] else None) + ((e[1][3], e[1][4]) if e[0] == "input" and len(e[1]) > 4 else ()) for e in ctx.trace][:40], flush=True)
         for cut, ks in (v or {}).items():
